@@ -163,12 +163,15 @@ def sweepNoShortcut (bars : List (α × α)) : Option (List (List (α × α))) :
 /-- value of the tent of bar `p` at `t` -/
 def tentAt (t : α) (p : α × α) : α := tent p.1 p.2 t
 
-/-- the event abscissae: `b, (b+d)/2, d` of every bar, `(b_i+d_j)/2` of every pair (where a rising and a
-    falling edge can meet), and every critical abscissa of the candidate -/
+/-- the event abscissae: `b, (b+d)/2, d` of every bar, every critical abscissa of the candidate, and
+    `(b_i+d_j)/2` for every pair of bars whose rising edge (of `i`) and falling edge (of `j`) meet, i.e.
+    `b_j ≤ b_i ≤ d_j ≤ d_i`.  (Only the first two groups matter for soundness; the crossings make the
+    checker complete: between two events no two tents change order.) -/
 def events (bars : List (α × α)) (cps : List (List (α × α))) : List α :=
   (bars.flatMap fun p => [p.1, (p.1 + p.2) / 2, p.2]) ++
-  (bars.flatMap fun p => bars.map fun q => (p.1 + q.2) / 2) ++
-  (cps.flatMap fun c => c.map fun p => p.1)
+  (cps.flatMap fun c => c.map fun p => p.1) ++
+  (bars.flatMap fun p => (bars.filter fun q =>
+      decide (q.1 ≤ p.1) && decide (p.1 ≤ q.2) && decide (q.2 ≤ p.2)).map fun q => (p.1 + q.2) / 2)
 
 /-- drop adjacent repetitions -/
 def dedupAdj : List α → List α
@@ -178,7 +181,7 @@ def dedupAdj : List α → List α
 
 /-- the cut points: events sorted ascending, repetitions removed -/
 def cuts (bars : List (α × α)) (cps : List (List (α × α))) : List α :=
-  dedupAdj ((events bars cps).mergeSort fun a b => decide (a ≤ b))
+  dedupAdj (stableSort (fun a b => decide (a ≤ b)) (events bars cps))
 
 /-- adjacent entries strictly increasing -/
 def strictAsc : List α → Bool
@@ -200,7 +203,7 @@ def cellLe (x y : α × α × (α × α)) : Bool :=
   if x.1 == y.1 then decide (y.2.1 ≤ x.2.1) else decide (y.1 < x.1)
 
 def cellOrder (bars : List (α × α)) (l r : α) : List (α × α) :=
-  ((bars.map fun p => (tentAt l p, tentAt r p, p)).mergeSort cellLe).map fun x => x.2.2
+  (stableSort cellLe (bars.map fun p => (tentAt l p, tentAt r p, p))).map fun x => x.2.2
 
 /-- the check on one cell: the order is descending at both ends, and for every depth `k < K` the k-th
     tent (0 beyond the number of bars) is within `eps` of the candidate's depth `k` (0 beyond its
